@@ -4,6 +4,8 @@ import (
 	"fmt"
 	"testing"
 
+	"github.com/emmansun/gmsm/sm3"
+	"github.com/emmansun/gmsm/sm4"
 	"pgregory.net/rapid"
 	"verif/harness/gen"
 	"verif/harness/h"
@@ -26,11 +28,16 @@ func keySeeds(n int) []uint64 {
 
 func observeOnce() {
 	h.Observe("c14.cfg", h.Cfg)
+	// which implementations the configuration selected underneath the containers
+	if blk, err := sm4.NewCipher(make([]byte, 16)); err == nil {
+		h.Observe("c14.sm4.block", fmt.Sprintf("%T", blk))
+	}
+	h.Observe("c14.sm3.hash", fmt.Sprintf("%T", sm3.New()))
 }
 
 // ---------------------------------------------------------------- plain containers
 
-var plainContainers = []string{"p8-smx509", "p8-nilpw", "p8-convert", "p8-typed", "sec1", "sec1-typed", "pkcs1", "pkix",
+var plainContainers = []string{"p8-smx509", "p8-nilpw", "p8-convert", "p8-typed", "sec1", "sec1-typed", "pkcs1", "pkix", "raw-priv", "raw-pub",
 	"sm9-asn1", "sm9-raw", "sm9-casn1", "sm9-craw", "sm9-craw-asn1"}
 
 func TestC14_Plain(t *testing.T) {
@@ -50,6 +57,9 @@ func TestC14_Plain(t *testing.T) {
 			}
 		}
 	}, checkRT)
+	h.Sweep(t, h.P{Name: "sm9-user-key-without-master-public"}, func(emit func(noMasterCase)) {
+		enumNoMaster(keySeeds(h.Scale(3, 30)), emit)
+	}, checkNoMaster)
 }
 
 // ---------------------------------------------------------------- PBES2 / SM-PBES full product
